@@ -889,6 +889,14 @@ def _or(s, o):
     if 'b' not in (ka, kb) and _disjoint(s, o):
         ma, mb = maskof(s), maskof(o)
         return SxInt.wrap(_toint(ka, xa) + _toint(kb, xb), m=(ma | mb) if ma is not None and mb is not None else None)
+    # non-negative Int term | contiguous constant mask:  x - (x & m) + m   (stays in linear arithmetic)
+    for (k1, x1, o1, k2, x2) in ((ka, xa, s, kb, xb), (kb, xb, o, ka, xa)):
+        if k1 == 'i' and k2 == 'c' and x2 > 0 and _is_mask_run(x2) is not None:
+            if maskof(o1) is not None or not Engine.cur.sat(x1 < 0):
+                lo, n = _is_mask_run(x2)
+                part = ((x1 / (1 << lo)) % (1 << n)) * (1 << lo)
+                m1 = maskof(o1)
+                return SxInt.wrap(x1 - part + x2, m=(m1 | x2) if m1 is not None else None)
     p = _bvpair(s, o)
     return SxInt.wrap(p[0] | p[1])
 
